@@ -249,6 +249,15 @@ def gen_project(rng, k=None):
     if group is not None and len(group["children"]) >= 1 and pick(rng, k.p_subgroup):
         # three levels: what the outer group declares has to reach the members through the sub-group
         group["children"] = [{"id": "sub", "children": group["children"][:1]}] + group["children"][1:]
+        if group.get("shift") and pick(rng, 0.8):
+            # the outer group refers to a shift, the sub-group declares hours of its own: the member below it, which declares
+            # none, works the sub-group's hours - the nearest declaration, at every level
+            wh = gen_hours(rng, G, k.aligned_only)
+            if wh:
+                group["children"][0]["wh"] = wh
+                for m in group["children"][0]["children"]:
+                    m.pop("shift", None)
+                    m.pop("wh", None)
     p["resources"] = res
     # an absence nested inside another one: a company holiday in the middle of a resource's multi-day leave
     for _fid, r, _par in A.flat_resources(p):
